@@ -22,11 +22,9 @@ CHECKS = {
             "from 13 feature groups and the bundled grammars; the same run compares Parser.parse with the generated parse on the same Parser. "
             "Not a theorem (checked on every generated module of the run): the source compiles/imports; generating twice is byte-identical.",
             "Lean 4 simulation proof LG ≈ L1 (state relation + frame conditions, induction on fuel) + " + T_MODEL),
-    "C02": ("core", "other",
-            "Correspondence + direct oracle (soundness theorems for the passes in progress): the Lean mirror of the optimizer is compared with "
-            "the real Optimizer's output AS TREES for the default pipeline and random lists of default passes; opt/optgen parse results are "
-            "compared with the models; the same run compares optimizer=None with Optimizer(passes), interpreted and generated.",
-            T_MODEL),
+    "C02": ("core", "proof",
+            "Theorem optimizer_sound (Props/C02.lean): for every pass list drawn from the exported default passes - any subset, order or repetition - every start rule, input, start position inside the input and every result r (success with end state and pairs, failure, or the KeyError of an undefined reference), the grammar has meaning r in pest's semantics L0 exactly when the optimized grammar has; so the optimized parser also terminates exactly when the un-optimized one does (optimizer_preserves_termination). Lifted to the interpreter model and the generated-code model run on the optimized table (opt_interp_agrees, opt_interp_vs_plain, optgen_agrees: same verdict, same end position, same pairs up to tags) through C03 and C01; optimized_skip_total discharges the SkipTotal hypothesis of those theorems for every optimized table; optimizer_keeps_signature / optimizer_keeps_soiFree: rule names, modifiers and SOI-freeness survive. The optimizer is Opt.lean, a mirror of Optimizer.optimize and the five passes compared AS TREES with the real optimizer's output on every grammar of every run (default pipeline and random pass lists; also cyclic rule graphs). Hypothesis OptS.WF g, executable as OptS.wfCheck and evaluated through the model on every grammar of the run (evidence hyp:g:optwf): the tree shapes the front end builds, no rule named SKIP with modifier SILENT+ATOMIC, SKIP referenced only if defined, and no empty-string alternative in a fused WHITESPACE (open finding nullable-trivia-diverges, replayed on every run); each remaining hypothesis has a proved witness that it is needed. The proof work found five defects of the real optimizer; four are repaired in /repo (85eed0c cd28459 ef95f87 a679cfa) and their witnesses run in the regression corpus. Tags: equal up to tags in the theorem; compared exactly on the implementation. The same run compares optimizer=None with Optimizer(passes), interpreted and generated, on random, template and bundled grammars.",
+            "Lean 4 proof: rewrite relation TR simulated in L0 by induction on fuel (squash: is_order_preserving suffices; skip; SKIP fusion), composed over pass lists; lifted through L1 ⊑ L0 and LG ≈ L1; " + T_MODEL),
     "C03": ("core", "proof",
             "Theorems interp_refines_spec / parse_agrees_with_spec (all grammars, expressions, inputs, start positions, states, fuel): the "
             "interpreter mirror L1 (Expression.parse, Rule.parse, ParserState incl. the delta-encoded Stack) refines the specification L0 of "
@@ -35,19 +33,12 @@ CHECKS = {
             "predicates consume nothing, one pair per non-silent rule). L1 is tied to the code by exact correspondence (tree, furthest position, "
             "key lists) and the executable L0 is run against the implementation, on generated core-operator grammars.",
             "Lean 4 refinement proof L1 ⊑ L0 (frame/checkpoint discipline, induction on fuel) + " + T_MODEL),
-    "C04": ("core", "other",
-            "Proved (Lean): the trivia-placement and atomicity laws of L0 (seq_trivia_between, rep_trailing_trivia_given_back, atomic_no_trivia, "
-            "rule_atomicity, atomic_rule_single_pair/visible_spec, …), that the interpreter model obeys them for every grammar "
-            "(interp_trivia_and_modifiers, trivia_interp_eq) and that generated code equals the interpreter (C01). Not yet proved: the optimizer "
-            "half (opt/optgen modes), which is C02 - hence level 'other'. All four modes are compared with the executable L0 and with their "
-            "models on trivia/modifier feature groups.",
-            "Lean 4 refinement proof (interp, gen modes) + " + T_MODEL),
-    "C05": ("core", "other",
-            "Proved (Lean): the seven stack clauses of L0 restated (push_spec … peek_slice_spec), stack_ops_never_raise and "
-            "failed_op_is_identity for the interpreter model, undo on backtracking as the refinement theorem (rests on C09), and the same for "
-            "generated code via C01. Not yet proved: optimized modes (C02) - hence level 'other'. All four modes are compared with the "
-            "executable L0 and with their models on stack feature groups with nested catch points.",
-            "Lean 4 refinement proof (interp, gen modes; Stack via C09) + " + T_MODEL),
+    "C04": ("core", "proof",
+            "Theorems: the trivia-placement and atomicity laws of pest's semantics L0 (seq_trivia_between, seq_no_trailing_trivia, rep_trailing_trivia_given_back, rep_trivia_between, rep_first_no_trivia, bounded_trivia_as_unrolled, peek_all_no_trivia, atomic_no_trivia, rule_atomicity, rule_restores_atomicity, atomic_rule_single_pair / visible_spec, compound_keeps_children, trivia_pairs_where_matched), that the interpreter model obeys them for every grammar (interp_trivia_and_modifiers, trivia_interp_eq; refinement L1 ⊑ L0), that generated code equals the interpreter (C01) and that the optimized grammar means the same in L0 (C02.optimizer_sound, under OptS.WF, evaluated per grammar) - together all four execution modes. Modifier bits, modifier symbols, the pass table and the list of Expression classes are regenerated from the source on every run and proved equal to the model's (Props/Tables.lean). All four modes are compared with the executable L0 and with their models on trivia/modifier feature groups, modifier chains and modifier trees (every assignment of modifiers to four / five nested rules).",
+            "Lean 4 refinement proof + optimizer soundness (C02) + " + T_MODEL),
+    "C05": ("core", "proof",
+            "Theorems: the seven stack clauses of L0 (push_spec, push_literal_spec, peek_spec, pop_spec, drop_spec, peek_all_spec, pop_all_spec, peek_slice_spec), stack_ops_never_raise and failed_op_is_identity for the interpreter model, undo on backtracking as the refinement theorem L1 ⊑ L0 (every abandoned alternative / optional / repetition item / predicate restores the stack exactly; rests on C09's refinement of the delta-encoded Stack to full copies), the same for generated code via C01 (gen_equiv_interp, gen_no_exc) and for the optimized modes via C02.optimizer_sound (under OptS.WF, evaluated per grammar). All four modes are compared with the executable L0 and with their models on stack feature groups with nested catch points, stack templates, stack read-out grammars and stack-history grammars (every balanced push/drop/commit/abort history up to length 8/9 as a grammar whose accepted input is the stack).",
+            "Lean 4 refinement proof (Stack via C09) + optimizer soundness (C02) + " + T_MODEL),
     "C06": ("core", "proof",
             'Theorems interp_tree_wf / gen_tree_wf (every rule table incl. optimizer-made nodes and the fused SKIP rule, every start rule, input and start position k <= len(input), fuel): every successful parse of the interpreter model L1 and of the generated-code model LG returns a GoodTree - k <= start <= end <= len(input) for every pair at every depth, children in input order, pairwise non-overlapping and inside the parent (WFForest, wf_unfolded/wf_flat), names are non-silent rules of the table or EOI (spec_names, interp_names), tags are tags written in the table (interp_tags), a non-silent start rule yields exactly one root pair starting at k (interp_root_single); and for every list of pairs tokens() is balanced with non-decreasing positions, flatten() is its pre-order (tokens_balanced, tokens_sorted, flatten_is_preorder). text == input[start:end] holds by construction (a Pair stores only start/end). The optimized modes are the same models run on the optimized rule table (the run checks SkipTotal on it through the model: evidence hyp:og:skip). L1/LG are tied to the code by exact correspondence of trees; tokensL/flattenL are tied to Pairs.tokens()/flatten() by the T request on every successful parse of the run. Not a theorem (evaluated on every successful parse of the run through the public API, all four modes): dump()/dumps() render and agree; that the optimizer keeps rule names/modifiers/tags of the original grammar (compared as trees with the Opt mirror).',
             "Lean 4 proof: forest invariant through L0 + refinement L1 ⊑ L0 (C03) + simulation LG ≈ L1 (C01); " + T_MODEL),
